@@ -15,7 +15,14 @@ from vlib import core
 from vlib.core import Report
 
 POOL = ["NULL", "TRUE", "FALSE", "0", "1", "(-1)", "7", "0.0", "2.5", "(-1.5)", "''", "'abc'", "'a b'", "'1'", "[]", "[1, 2]", "['a', 'b']",
-        "<<>>", "<<1, 2>>", "<<<>>>", "<<<'a' => 1>>>", "<**>", "<*x = 1*>", "fn(x) x", "//a.*//", "date('20200131')"]
+        "<<>>", "<<1, 2>>", "<<<>>>", "<<<'a' => 1>>>", "<**>", "<*x = 1*>", "fn(x) x", "//a.*//", "date('20200131')",
+        # values whose rendering is long (error messages and stack traces abbreviate them)
+        "'" + "long string " * 6 + "'", "['the first long element', 'the second long element', 'the third long element']",
+        "<<< " + ", ".join("'key%d' => %d" % (i, i) for i in range(20)) + " >>>"]
+PRELUDE = ""
+# cyclic (self-containing) data is not part of the pool: rendering, hashing and comparing it recurses without bound
+# (recorded finding C13-F11, probed by one program below)
+CYCLIC_PROBE = "def l = [1]; append(l, l); do <<<1 => 2>>>[l] catch all 'caught' end"
 # never called: they act on the real process / terminal rather than on values
 EXCLUDE = {"run", "exit", "execute", "bind_native", "process_lines", "readln", "read", "read_all", "timestamp"}
 
@@ -113,12 +120,13 @@ def main(tier, seed, replay=None):
     chunks = {}
     for k, (target, prog, legacy) in enumerate(cases):
         chunks.setdefault((legacy, k % 64), []).append(k)
-    jobs = [([cases[k][1] for k in ks], legacy) for (legacy, _), ks in chunks.items()]
+    jobs = [([PRELUDE + cases[k][1] for k in ks], legacy) for (legacy, _), ks in chunks.items()]
     import sys
     sys.path.insert(0, os.path.join(core.VERIF, "tools"))
     import c13worker
-    with multiprocessing.Pool(16) as pool:
-        outs = pool.map(c13worker.run_chunk, jobs, chunksize=1)
+    import concurrent.futures
+    with concurrent.futures.ThreadPoolExecutor(max_workers=16) as ex:
+        outs = list(ex.map(lambda j: c13worker.run_robust(j[0], j[1]), jobs))
     res = [None] * len(cases)
     for ((legacy, _), ks), out in zip(chunks.items(), outs):
         for k, o in zip(ks, out):
@@ -130,12 +138,16 @@ def main(tier, seed, replay=None):
         classes[o.split(":")[0]] = classes.get(o.split(":")[0], 0) + 1
         if "(" in prog and not prog.endswith("()"):
             rep.nontriv(prog)
-        if o.startswith("host") or o == "timeout" or o == "err-uncanon":
+        if o.startswith("host") or o in ("timeout", "err-uncanon", "crash", "hang"):
             bad.setdefault((target, o), prog)
     for (target, o), prog in sorted(bad.items()):
         rep.violation("input", "%s: %s escapes from %s" % (target, o, prog), check="escape", target=target, outcome=o, program=prog)
     rep.oblige("enumeration: %d calls of %d functions and %d forms end in a value or the language's runtime error" % (
         len(cases), len(fns), len(FORMS1) + len(FORMS2) + len(FORMS3)), not bad, "%d (target, escape) classes" % len(bad))
+    o = c13worker.run_robust([CYCLIC_PROBE], False, hard_timeout=30)[0]
+    rep.count()
+    if o != "val":
+        rep.violation("input", "%s -> %s" % (CYCLIC_PROBE, o), check="cyclic", target="self-containing list", outcome=o, program=CYCLIC_PROBE)
     rep.cov["outcome_classes"] = classes
     rep.cov["functions"] = len(fns)
     rep.cov["calls"] = len(cases)
@@ -160,8 +172,8 @@ def do_replay(rep, path, impl):
         if not prog or v.get("check") != "escape":
             continue
         for legacy in (True, False):
-            o = c13worker.run_chunk(([prog], legacy))[0]
-            if o.startswith("host") or o == "timeout":
+            o = c13worker.run_robust([PRELUDE + prog], legacy, hard_timeout=20)[0]
+            if o.startswith("host") or o in ("timeout", "crash", "hang"):
                 print("REPRODUCED: %s -> %s" % (prog, o))
                 rep.violation("input", "%s: %s" % (prog, o), check="escape", target=v["target"], outcome=o, program=prog)
                 n += 1
